@@ -55,6 +55,10 @@ def canon(container, op, j):
         return j[:2] + sorted(j[2:])
     if container in ("hash",) and j and j[0] == "s":
         return j[:2]
+    if container == "harr" and j and j[0] == "f":
+        return j[:2] + sorted(j[2:])
+    if container == "kv" and j and j[0] == "F":
+        return j[:2] + sorted(j[2:])
     return j
 
 
@@ -220,7 +224,217 @@ def oracle_list(params, ops, outs):
     need(len(tail) == 1 and tail[0][0] == ["E", "0"], "end of case: %s (memory not balanced or allocator count wrong)" % [" ".join(t[0]) for t in tail])
 
 
-ORACLES = {"hash": oracle_hash, "pool": oracle_pool, "uc": oracle_uc, "list": oracle_list}
+
+def end_ok(tail, what="memory not balanced"):
+    need(len(tail) == 1 and tail[0][0] == ["E", "0"], "end of case: %s (%s)" % ([" ".join(t[0]) for t in tail], what))
+
+
+def oracle_harr(params, ops, outs):
+    rip = params[0]
+    seq = []           # (id, tag) in insertion order
+    pos = {}
+    for n, (op, (j, info)) in enumerate(zip(ops, outs)):
+        o = op[0]
+        need(j and j[0] == o, "op %d: result tag %r for op %r" % (n, j[:1], o))
+        if o in ("i", "I"):
+            kid, tag = op[1], op[2]
+            exp_added = kid not in pos
+            exp_pos = pos.get(kid, len(seq))
+            if exp_added:
+                pos[kid] = len(seq)
+                seq.append((kid, tag))
+            a = [int(x, 16) for x in j[1:]]
+            if o == "i":
+                need(len(a) == 5, "op %d: malformed insert result %s" % (n, j))
+                need(a[0] == int(exp_added), "op %d: insert of id %x reports added=%d, the ordered set says %d" % (n, kid, a[0], exp_added))
+                need(a[1] == exp_pos, "op %d: insert of id %x reports position %x, insertion rank is %x" % (n, kid, a[1], exp_pos))
+                need(a[2] == len(seq) and a[3] == len(seq), "op %d: array/hash elem_count %x/%x, cardinality %x" % (n, a[2], a[3], len(seq)))
+                need(a[4] == 1, "op %d: the returned element is not the last array slot" % n)
+            else:
+                need(a[0] == int(exp_added), "op %d: insert of id %x reports added=%d, the ordered set says %d" % (n, kid, a[0], exp_added))
+                need(a[1] == len(seq) and a[2] == len(seq), "op %d: array/hash elem_count %x/%x, cardinality %x" % (n, a[1], a[2], len(seq)))
+        elif o in ("l", "L"):
+            kid = op[1]
+            need(int(j[1]) == int(kid in pos), "op %d: lookup of id %x returns %s, present=%s" % (n, kid, j[1], kid in pos))
+            if o == "l" and kid in pos:
+                need(int(j[2], 16) == pos[kid], "op %d: lookup of id %x gives position %s, it was inserted at %x (positions must be stable)" % (n, kid, j[2], pos[kid]))
+        elif o == "f":
+            got = sorted(int(x, 16) for x in j[2:])
+            need(int(j[1], 16) == len(seq) and got == list(range(len(seq))),
+                 "op %d: iteration visits positions %s..., expected each of 0..%d once" % (n, got[:6], len(seq) - 1))
+        elif o == "v":
+            need(j[1] == "1", "op %d: sc_hash_array_is_valid returns %s" % (n, j[1]))
+        elif o == "d":
+            exp = ["%x.%x" % e for e in seq]
+            need(int(j[1], 16) == len(seq) and j[2:] == exp, "op %d: array contents differ from the insertion sequence (first difference at %s)" % (
+                n, next((i for i, (x, y) in enumerate(zip(j[2:], exp)) if x != y), min(len(exp), len(j) - 2))))
+        elif o == "t":
+            seq, pos = [], {}
+            need(j[1:] == ["0", "0"], "op %d: counts %s after truncate" % (n, j[1:]))
+        elif o == "c":
+            need(int(j[1], 16) == len(seq) and int(j[2], 16) == len(seq), "op %d: array/hash elem_count %s/%s, cardinality %x" % (n, j[1], j[2], len(seq)))
+    tail = outs[len(ops):]
+    if rip:
+        need(tail and tail[0][0][:1] == ["R"], "no ripped array reported")
+        r = tail[0][0]
+        need(int(r[1], 16) == len(seq) and r[2:] == ["%x.%x" % e for e in seq], "the ripped array differs from the insertion sequence")
+        tail = tail[1:]
+    end_ok(tail)
+
+
+def oracle_rec(params, ops, outs):
+    live = []          # [pos, val] in insertion order
+    hw = 0
+    for n, (op, (j, info)) in enumerate(zip(ops, outs)):
+        o = op[0]
+        need(j and j[0] == o, "op %d: result tag %r for op %r" % (n, j[:1], o))
+        lp = set(l[0] for l in live)
+        if o == "i":
+            pos, slots, freed = [int(x, 16) for x in info.split()]
+            need(j[1] == "1" and pos not in lp, "op %d: insert hands out position %x which is live" % (n, pos))
+            need(j[2] == "1", "op %d: the returned item is not the array element of the reported position %x" % (n, pos))
+            free_pos = set(range(hw)) - lp
+            if free_pos:
+                need(pos in free_pos, "op %d: position %x handed out although freed positions %s exist" % (n, pos, sorted(free_pos)[:5]))
+            else:
+                need(pos == hw, "op %d: position %x handed out, the next new position is %x" % (n, pos, hw))
+                hw += 1
+            live.append([pos, op[1]])
+            need(int(j[3], 16) == len(live), "op %d: elem_count %s after insert, %d positions are live" % (n, j[3], len(live)))
+            need(slots == hw and freed == hw - len(live), "op %d: %x slots and %x freed, expected %x and %x" % (n, slots, freed, hw, hw - len(live)))
+        elif o == "r":
+            pos, val = live.pop(op[1])
+            need(j[1] != "corrupt" and int(j[1], 16) == val, "op %d: removed position %x holds %s, last written %x" % (n, pos, j[1], val))
+            need(j[2] == "1", "op %d: remove returns a pointer that is not the slot of position %x" % (n, pos))
+            need(int(j[3], 16) == len(live), "op %d: elem_count %s after remove, %d positions are live" % (n, j[3], len(live)))
+        elif o == "w":
+            live[op[1]][1] = op[2]
+        elif o == "g":
+            need(j[1] != "corrupt" and int(j[1], 16) == live[op[1]][1], "op %d: live position %x reads %s, last written %x" % (n, live[op[1]][0], j[1], live[op[1]][1]))
+        elif o == "c":
+            c, sl, fr = [int(x, 16) for x in j[1:4]]
+            need(c == len(live), "op %d: elem_count %x, %d positions are live" % (n, c, len(live)))
+            need(sl == hw and sl == c + fr, "op %d: %x slots, %x live, %x freed (high-water mark %x)" % (n, sl, c, fr, hw))
+            need(j[4] == "1", "op %d: the content of a live position changed" % n)
+        elif o == "x":
+            live, hw = [], 0
+            need(j[1] == "0", "op %d: elem_count %s after reset" % (n, j[1]))
+    end_ok(outs[len(ops):])
+
+
+KV_PATTERN = [1, 2, 3, 4, 1, 3]
+
+
+def oracle_kv(params, ops, outs):
+    m = {}
+    for n, (op, (j, info)) in enumerate(zip(ops, outs)):
+        o = op[0]
+        need(j and j[0] == o, "op %d: result tag %r for op %r" % (n, j[:1], o))
+        if o == "P":
+            m[op[2]] = (op[1], op[3])
+        elif o == "S":
+            ty, kid, val = op[1:4]
+            m[kid] = (m[kid][0] if kid in m else ty, val)
+        elif o == "G":
+            ty, kid, d = op[1:4]
+            exp = m[kid][1] if kid in m else d
+            need(int(j[1], 16) == exp, "op %d: get of key k%x returns %s, the map says %x" % (n, kid, j[1], exp))
+        elif o == "K":
+            kid, st = op[1:3]
+            exp = ((m[kid][1], 0) if m[kid][0] == 1 else (st, 2)) if kid in m else (st, 1)
+            need((int(j[1], 16), int(j[2], 16)) == exp, "op %d: get_int_check of key k%x gives (%s,%s), the map says %s" % (n, kid, j[1], j[2], exp))
+        elif o in ("E", "U"):
+            kid = op[1]
+            exp = m[kid][0] if kid in m else 0
+            need(int(j[1], 16) == exp, "op %d: %s of key k%x returns type %s, the map says %d" % (n, "exists" if o == "E" else "unset", kid, j[1], exp))
+            if o == "U":
+                m.pop(kid, None)
+        elif o == "F":
+            exp = sorted("%x:%x:%x" % (k, tv[0], tv[1]) for k, tv in m.items())
+            got = sorted(j[2:])
+            need(int(j[1], 16) == len(m) and got == exp, "op %d: iteration does not enumerate the map: missing %s, unexpected %s" % (
+                n, sorted(set(exp) - set(got))[:3], sorted(set(got) - set(exp))[:3]))
+        elif o == "C":
+            need(int(j[1], 16) == len(m) and int(j[2], 16) == len(m), "op %d: %s table elements and %s allocated entries for %d bindings" % (n, j[1], j[2], len(m)))
+    end_ok(outs[len(ops):])
+
+
+def avl_ckey(mode, key):
+    return -key if mode == 1 else (key >> 2 if mode == 2 else key)
+
+
+def oracle_avl(params, ops, outs):
+    import bisect
+    mode, withfree = params[0], params[1]
+    ck = []            # ascending class keys
+    items = []         # "key.tag" per class key
+    freed = 0
+    for n, (op, (j, info)) in enumerate(zip(ops, outs)):
+        o = op[0]
+        need(j and j[0] == o, "op %d: result tag %r for op %r" % (n, j[:1], o))
+        if o in ("i", "d", "s", "n", "x"):
+            c = avl_ckey(mode, op[1])
+            i = bisect.bisect_left(ck, c)
+            present = i < len(ck) and ck[i] == c
+        if o == "i":
+            if not present:
+                ck.insert(i, c)
+                items.insert(i, "%x.%x" % (op[1], op[2]))
+            need(j[1] == str(int(not present)), "op %d: insert of key %x reports %s, the set says added=%d" % (n, op[1], j[1], not present))
+            need(int(j[2], 16) == len(ck) and len(j) == 3, "op %d: avl_count %s after insert (%s), cardinality %d" % (n, j[2], j[3:], len(ck)))
+        elif o == "d":
+            if present:
+                need(j[1] == "1" and j[2] == items[i], "op %d: delete of key %x returns %s, the set holds %s" % (n, op[1], j[1:3], items[i]))
+                ck.pop(i)
+                items.pop(i)
+                freed += 1
+            else:
+                need(j[1] == "0", "op %d: delete of absent key %x returns an item" % (n, op[1]))
+            need(int(j[-1], 16) == len(ck), "op %d: avl_count %s after delete, cardinality %d" % (n, j[-1], len(ck)))
+        elif o == "s":
+            need(j[1:] == (["1", items[i]] if present else ["0"]), "op %d: search of key %x gives %s, the set says %s" % (n, op[1], j[1:], items[i] if present else "absent"))
+        elif o == "n":
+            f = info.split()
+            if not ck:
+                need(f == ["none"], "op %d: search_closest on the empty tree gives %s" % (n, f))
+            else:
+                need(len(f) == 2 and f[1] in items, "op %d: search_closest gives %s, not an element" % (n, f))
+                k = items.index(f[1])
+                if present:
+                    need(f[0] == "0" and k == i, "op %d: search_closest of present key %x gives %s" % (n, op[1], f))
+                elif f[0] == "-1":
+                    need(k == i, "op %d: search_closest of %x answers -1 with %s, the successor is %s" % (n, op[1], f[1], items[i] if i < len(items) else None))
+                elif f[0] == "1":
+                    need(k == i - 1, "op %d: search_closest of %x answers 1 with %s, the predecessor is %s" % (n, op[1], f[1], items[i - 1] if i else None))
+                else:
+                    raise Bad("op %d: search_closest of absent key %x answers %s" % (n, op[1], f))
+        elif o == "a":
+            u = op[1]
+            need(j[1] == (items[u] if u < len(items) else "-"), "op %d: avl_at(%d) gives %s, the %d-th smallest is %s" % (n, u, j[1], u, items[u] if u < len(items) else None))
+        elif o == "x":
+            need(j[1] == ("%x" % i if present else "-"), "op %d: avl_index of key %x gives %s, its rank is %s" % (n, op[1], j[1], i if present else None))
+        elif o == "c":
+            need(int(j[1], 16) == len(ck), "op %d: avl_count %s, cardinality %d" % (n, j[1], len(ck)))
+            need(j[2] == "1", "op %d: the tree is inconsistent (stored counts, parent pointers, order or prev/next links)" % n)
+        elif o in ("f", "A", "t"):
+            need(int(j[1], 16) == len(ck) and j[2:] == items, "op %d: %s does not enumerate the set in ascending order" % (
+                n, {"f": "avl_foreach", "A": "avl_to_array", "t": "the head/next list"}[o]))
+        elif o == "b":
+            need(int(j[1], 16) == len(ck) and j[2:] == items[::-1], "op %d: the tail/prev list is not the descending order of the set" % n)
+        elif o == "e":
+            need(j[1:] == ([items[0], items[-1]] if items else ["-", "-"]), "op %d: head/tail are %s" % (n, j[1:]))
+        elif o == "z":
+            freed += len(ck)
+            ck, items = [], []
+            need(j[1] == "0", "op %d: avl_count %s after avl_free_nodes" % (n, j[1]))
+    tail = outs[len(ops):]
+    freed += len(ck)
+    need(tail and tail[0][0] == ["Z", "%x" % (freed if withfree else 0)], "freeitem was called %s times, %d items left the tree" % (tail[0][0][1:] if tail else "?", freed))
+    end_ok(tail[1:])
+
+
+ORACLES = {"hash": oracle_hash, "pool": oracle_pool, "uc": oracle_uc, "list": oracle_list,
+           "harr": oracle_harr, "rec": oracle_rec, "kv": oracle_kv, "avl": oracle_avl}
 
 
 # ----------------------------------------------------------------------------------------------
@@ -281,6 +495,40 @@ def legal(container, params, ops):
                     n -= 1
                 elif o in ("x", "u"):
                     n = 0
+            return True
+        if container == "rec":
+            n = 0
+            for op in ops:
+                o = op[0]
+                if o == "i":
+                    n += 1
+                elif o in ("r", "w", "g"):
+                    if op[1] >= n:
+                        return False
+                    if o == "r":
+                        n -= 1
+                elif o == "x":
+                    n = 0
+            return True
+        if container == "kv":
+            types = {}
+            lead = True
+            for i, op in enumerate(ops):
+                o = op[0]
+                if o == "P":
+                    if not lead or i >= 6 or op[1] != KV_PATTERN[i]:
+                        return False
+                    types[op[2]] = op[1]
+                    continue
+                lead = False
+                if o == "S":
+                    if types.setdefault(op[2], op[1]) != op[1]:
+                        return False
+                elif o == "G":
+                    if types.get(op[2], op[1]) != op[1]:
+                        return False
+                elif o == "U":
+                    types.pop(op[1], None)
             return True
     except (IndexError, ValueError):
         return False
@@ -494,6 +742,256 @@ def gen_list(rng, nops):
     return mk("list", [own, pre], ops)
 
 
+
+def gen_harr_grow(rng, rip, hp, top, dumps=True):
+    """insert `top` distinct ids (a hash array only grows): crosses the 4x threshold of its table once or twice"""
+    ops = []
+    ids = list(range(1, top + 1))
+    rng.shuffle(ids)
+    present = []
+    marks = set([254, 255, 256, 1019, 1020, 1021, 4075, 4076, 4077, top])
+    tag = 0
+    for kid in ids:
+        tag += 1
+        ops.append((rng.choice("iiiI"), kid, tag))
+        present.append(kid)
+        r = rng.random()
+        if r < 0.08:
+            ops.append((rng.choice("lL"), rng.choice(present)))
+        elif r < 0.12:
+            ops.append((rng.choice("lL"), top + 1 + rng.randrange(50)))
+        elif r < 0.17:
+            tag += 1
+            ops.append(("i", rng.choice(present), tag))          # duplicate: not added, old position
+        if len(present) in marks:
+            ops += [("c",), ("v",)] + ([("f",), ("d",)] if dumps and rng.random() < 0.7 else [])
+    for kid in rng.sample(present, min(len(present), 30)):
+        ops.append(("l", kid))
+    ops += [("c",), ("f",), ("t",), ("c",)]
+    for kid in rng.sample(range(1, top + 1), min(top, 300)):      # life after truncate, positions restart at 0
+        tag += 1
+        ops.append(("i", kid, tag))
+    ops += [("v",), ("d",), ("c",)]
+    return mk("harr", [rip] + list(hp), ops)
+
+
+def gen_harr_random(rng, nops):
+    hp = rng.choice(HASH_PARAMS) if rng.random() < 0.7 else (rng.choice([0, 0, 2, 3, 5, 16, 255, 256]), rng.randrange(1, 1 << 32), rng.randrange(1 << 32))
+    idr = rng.choice([8, 20, 60, 300])
+    mult = rng.choice([1, 1, 255, 1019])
+    ops = []
+    for t in range(nops):
+        r = rng.random()
+        kid = rng.randrange(idr) * mult
+        if r < 0.45:
+            ops.append((rng.choice("iiI"), kid, t + 1))
+        elif r < 0.72:
+            ops.append((rng.choice("llL"), kid))
+        elif r < 0.80:
+            ops.append(("f",))
+        elif r < 0.86:
+            ops.append(("d",))
+        elif r < 0.91:
+            ops.append(("v",))
+        elif r < 0.97:
+            ops.append(("c",))
+        else:
+            ops.append(("t",))
+    ops += [("f",), ("d",), ("v",)]
+    return mk("harr", [rng.randrange(2)] + list(hp), ops)
+
+
+def gen_rec(rng, nops):
+    esz = rng.choice([1, 2, 4, 8, 24, 100])
+    ops = []
+    n = 0
+    grow = True
+    for _ in range(nops):
+        if rng.random() < 0.03:
+            grow = not grow
+        r = rng.random()
+        pa = 0.5 if grow else 0.2
+        if r < pa or n == 0:
+            ops.append(("i", rng.randrange(256)) if rng.random() < 0.85 else ("i", rng.randrange(256), 1))
+            n += 1
+        elif r < pa + (0.15 if grow else 0.4):
+            ops.append(("r", rng.choice([0, n - 1, rng.randrange(n)])))
+            n -= 1
+        elif r < 0.80:
+            ops.append(("w", rng.randrange(n), rng.randrange(256)))
+        elif r < 0.93:
+            ops.append(("g", rng.randrange(n)))
+        elif r < 0.99:
+            ops.append(("c",))
+        else:
+            ops.append(("x",))
+            n = 0
+    ops.append(("c",))
+    return mk("rec", [esz], ops)
+
+
+def kv_val(rng, ty):
+    return rng.randrange(16) if ty == 3 else rng.randrange(1, 2000)
+
+
+def gen_kv(rng, nops, idr=None, big=0):
+    idr = idr or rng.choice([4, 12, 40, 200])
+    ops = []
+    types = {}
+    for i in range(rng.choice([0, 0, 1, 3, 6, 6])):
+        kid = rng.randrange(min(idr, 5))
+        ops.append(("P", KV_PATTERN[i], kid, kv_val(rng, KV_PATTERN[i])))
+        types[kid] = KV_PATTERN[i]
+    if big:
+        # fill beyond the 4x threshold of the internal table and empty it again (below 1/4)
+        ids = list(range(100, 100 + big))
+        rng.shuffle(ids)
+        for kid in ids:
+            ty = rng.randrange(1, 5)
+            types[kid] = ty
+            ops.append(("S", ty, kid, kv_val(rng, ty)))
+            if rng.random() < 0.03:
+                ops.append(("G", ty, kid, kv_val(rng, ty)))
+        ops += [("C",), ("F",)]
+        rng.shuffle(ids)
+        for kid in ids[:-7]:
+            ops.append(("U", kid))
+            types.pop(kid, None)
+            if rng.random() < 0.02:
+                ops.append(("E", kid))
+        ops += [("C",), ("F",)]
+    for _ in range(nops):
+        r = rng.random()
+        kid = rng.randrange(idr)
+        if r < 0.30:
+            ty = types.setdefault(kid, rng.randrange(1, 5))
+            ops.append(("S", ty, kid, kv_val(rng, ty)))
+        elif r < 0.52:
+            ty = types.get(kid, rng.randrange(1, 5))
+            ops.append(("G", ty, kid, kv_val(rng, ty)))
+        elif r < 0.62:
+            ops.append(("K", kid, rng.randrange(1, 50)))
+        elif r < 0.72:
+            ops.append(("E", kid))
+        elif r < 0.88:
+            ops.append(("U", kid))
+            types.pop(kid, None)
+        elif r < 0.94:
+            ops.append(("F",))
+        else:
+            ops.append(("C",))
+    ops += [("F",), ("C",)]
+    return mk("kv", [], ops)
+
+
+def avl_queries(rng, ops, keys, n, kmax):
+    for _ in range(n):
+        r = rng.random()
+        if r < 0.25:
+            ops.append(("a", rng.choice([0, 1, max(len(keys) - 1, 0), len(keys), len(keys) + 3, rng.randrange(len(keys) + 2)])))
+        elif r < 0.5:
+            ops.append(("x", rng.choice(keys) if keys and rng.random() < 0.8 else rng.randrange(kmax)))
+        elif r < 0.7:
+            ops.append(("n", rng.randrange(kmax)))
+        elif r < 0.9:
+            ops.append(("s", rng.choice(keys) if keys and rng.random() < 0.6 else rng.randrange(kmax)))
+        else:
+            ops.append(("e",))
+
+
+def gen_avl_cycle(rng, mode, withfree, top, order):
+    """grow to `top` keys in ascending / descending / random / zig-zag order (every rotation kind), delete again"""
+    step = 4 if mode == 2 else 1
+    keys = [step * k + (rng.randrange(4) if mode == 2 else 0) for k in range(1, top + 1)]
+    if order == "desc":
+        keys.reverse()
+    elif order == "rand":
+        rng.shuffle(keys)
+    elif order == "zig":
+        keys = [k for pair in zip(keys[:top // 2], reversed(keys[top // 2:])) for k in pair] + ([keys[top // 2]] if top % 2 else [])
+    ops = []
+    present = []
+    tag = 0
+    kmax = step * (top + 3)
+    for k in keys:
+        tag += 1
+        ops.append(("i", k, tag))
+        present.append(k)
+        r = rng.random()
+        if r < 0.06:
+            tag += 1
+            ops.append(("i", rng.choice(present), tag))              # an equal item: rejected
+        elif r < 0.16:
+            avl_queries(rng, ops, present, 1, kmax)
+        elif r < 0.20 and len(present) > 2:
+            k2 = present.pop(rng.randrange(len(present)))
+            ops.append(("d", k2))
+            tag += 1
+            ops.append(("i", k2, tag))
+            present.append(k2)
+        if len(present) in (1, 2, 3, 7, 8, 15, 16, 31, 64, 200, top):
+            ops += [("c",), ("f",), ("t",), ("b",)]
+    ops += [("c",), ("A",)]
+    avl_queries(rng, ops, present, 40, kmax)
+    dorder = rng.choice(["rand", "asc", "desc", "mid"])
+    if dorder == "rand":
+        rng.shuffle(present)
+    elif dorder == "asc":
+        present.sort()
+    elif dorder == "desc":
+        present.sort(reverse=True)
+    else:
+        present.sort(key=lambda k: abs(k - step * top // 2))           # from the middle outwards: two-child deletions
+    while present:
+        k = present.pop(0)
+        ops.append(("d", k))
+        r = rng.random()
+        if r < 0.08:
+            ops.append(("d", k))                                     # already deleted
+        elif r < 0.2:
+            avl_queries(rng, ops, present, 1, kmax)
+        if len(present) in (0, 1, 2, 5, 9, 17, 33, 100, top // 2) or rng.random() < 0.01:
+            ops += [("c",), ("t",), ("b",)] + ([("f",)] if rng.random() < 0.5 else [])
+        if len(present) == top // 3 and rng.random() < 0.3:
+            ops += [("z",), ("c",)]
+            present = []
+    ops += [("c",), ("f",), ("e",)]
+    return mk("avl", [mode, withfree], ops)
+
+
+def gen_avl_random(rng, nops):
+    mode = rng.randrange(4)
+    kr = rng.choice([6, 16, 40, 200, 2000])
+    ops = []
+    for t in range(nops):
+        r = rng.random()
+        k = rng.randrange(kr)
+        if r < 0.34:
+            ops.append(("i", k, t + 1))
+        elif r < 0.56:
+            ops.append(("d", k))
+        elif r < 0.64:
+            ops.append(("s", k))
+        elif r < 0.70:
+            ops.append(("n", k))
+        elif r < 0.77:
+            ops.append(("a", rng.randrange(kr // 2 + 2)))
+        elif r < 0.84:
+            ops.append(("x", k))
+        elif r < 0.89:
+            ops.append(("c",))
+        elif r < 0.93:
+            ops.append((rng.choice("fA"),))
+        elif r < 0.96:
+            ops.append((rng.choice("tb"),))
+        elif r < 0.99:
+            ops.append(("e",))
+        else:
+            ops.append(("z",))
+    ops += [("c",), ("f",), ("t",), ("b",)]
+    return mk("avl", [mode, rng.randrange(2)], ops)
+
+
 def gen_cases(ctx):
     rng = ctx.rng
     q = ctx.quick
@@ -519,6 +1017,26 @@ def gen_cases(ctx):
         cases.append(gen_hash_threshold(rng, base, hp))
     for _ in range(160 if q else 4000):
         cases.append(gen_hash_random(rng, rng.choice([20, 60, 150, 400])))
+    # hash array: growth across the 4x threshold of the internal table, colliding families, truncate and reuse
+    for rip, hp, top in [(0, HASH_PARAMS[0], 4200), (1, HASH_PARAMS[1], 1100), (0, HASH_PARAMS[5], 1300), (1, HASH_PARAMS[4], 500), (0, HASH_PARAMS[3], 300)] + (
+            [] if q else [(1, HASH_PARAMS[8], 4300), (0, HASH_PARAMS[6], 4200), (1, HASH_PARAMS[2], 600)]):
+        cases.append(gen_harr_grow(rng, rip, hp, top))
+    for _ in range(120 if q else 3000):
+        cases.append(gen_harr_random(rng, rng.choice([20, 60, 150, 400])))
+    # recycle array
+    for _ in range(150 if q else 4000):
+        cases.append(gen_rec(rng, rng.choice([20, 80, 300, 1000])))
+    # key-value store
+    for _ in range(150 if q else 4000):
+        cases.append(gen_kv(rng, rng.choice([20, 60, 200, 500])))
+    for big in [1100, 4200] + ([] if q else [4100, 16400]):
+        cases.append(gen_kv(rng, 100, idr=200, big=big))
+    # AVL tree
+    for mode, order, top in [(0, "asc", 1200), (0, "desc", 700), (3, "rand", 2500), (1, "asc", 300), (2, "rand", 400), (0, "zig", 500),
+                             (1, "rand", 64), (3, "zig", 33), (2, "asc", 100)] + ([] if q else [(0, "rand", 20000), (3, "asc", 9000), (1, "zig", 5000)]):
+        cases.append(gen_avl_cycle(rng, mode, rng.randrange(2), top, order))
+    for _ in range(250 if q else 6000):
+        cases.append(gen_avl_random(rng, rng.choice([15, 50, 150, 500])))
     return cases
 
 
@@ -649,6 +1167,7 @@ def run(ctx):
     opdist = {}
     nviol = ndis = ninfo = 0
     resize_actions = 0
+    resize_by = {}
     for i, line in enumerate(cases):
         container, params, ops = parse_case(line)
         dist[container] = dist.get(container, 0) + 1
@@ -695,21 +1214,32 @@ def run(ctx):
                                    "case %d (%s %s, %d ops): operation %d (%s): libsc gives `%s`, the model gives `%s`" % (
                                        i, container, params, len(ops), d, ops[d] if d < len(ops) else "end",
                                        " ".join(a[d][0])[:200] if d < len(a) else "<missing>", " ".join(b[d][0])[:200] if d < len(b) else "<missing>"))
-        if container == "hash":
+        if container in ("hash", "harr", "kv"):
             for j, info in split_out(il):
-                if j[:1] == ["c"] and info:
-                    resize_actions = max(resize_actions, int(info.split()[2], 16))
+                if j[:1] in (["c"], ["C"]) and info:
+                    ra = int(info.split()[2], 16)
+                    resize_by[container] = max(resize_by.get(container, 0), ra)
+                    if container == "hash":
+                        resize_actions = max(resize_actions, ra)
     ctx.cov["disagreements_checked"] = len(cases)
     ctx.cov["rule"] = ("operation histories per container (hash: full grow/shrink cycles over 4000-16000 keys crossing the 4x and 1/4x "
                        "thresholds in both directions under identity / multiplicative / few-bucket / constant / slot-count-multiple hash "
                        "functions, walks around the resize triggers, random mixed histories with colliding key families; pools: "
                        "interleaved alloc/free/write/read/truncate over item sizes 1..5000 and stamp units around multiples of the item "
-                       "size; lists: prepend/append/insert/remove/pop/reset/unlink with own and shared allocators); a case is "
-                       "non-trivial if it has at least 3 operations; distinct = distinct case text")
+                       "size; lists: prepend/append/insert/remove/pop/reset/unlink with own and shared allocators; hash arrays: growth to "
+                       "300-4300 elements across the 4x threshold of the internal table under the same hash function families, duplicates, "
+                       "truncate and reuse, destroy or rip; recycle arrays: interleaved insert/remove/write/read/reset over element sizes "
+                       "1..100; key-value: construction by sc_keyvalue_newf with repeated keys, typed set/get/get_int_check/exists/unset/"
+                       "foreach over small and large key ranges, 1100 and 4200 keys set and unset again so that the internal table grows and "
+                       "shrinks; AVL: growth in ascending / descending / random / zig-zag key order up to 2500 keys and deletion in random / "
+                       "ascending / descending / middle-out order under four compare functions (difference, reversed, classes of equal keys, "
+                       "sign), rank queries at and beyond the ends, closest queries, forward/backward list walks, structural self-check); "
+                       "a case is non-trivial if it has at least 3 operations; distinct = distinct case text")
     ctx.cov["exhaustive"] = False
     ctx.notes["cases_per_container"] = dist
     ctx.notes["op_distribution"] = opdist
     ctx.notes["hash_max_resize_actions_in_one_case"] = resize_actions
+    ctx.notes["max_table_resize_actions_in_one_case"] = resize_by
     ctx.notes["judged_disagreements"] = ndis
     ctx.notes["info_differences_not_judged"] = ninfo
     ctx.notes["oracle_violations"] = nviol
@@ -718,11 +1248,24 @@ def run(ctx):
     for c in cases[:: max(1, len(cases) // 5)][:5]:
         ctx.sample({"case": c[:300]})
     ctx.cov["trusted_base"] = ["tools/c2g translator and clang-14's JSON AST for the hash resize arithmetic (the generated constants are used by the model that is run against libsc)",
-                               "tools/harness/c09_harness.c: derives item identities, overlap and content checks from the pointers libsc returns"]
+                               "tools/harness/c09_harness.c: derives item identities, overlap and content checks from the pointers libsc returns; "
+                               "reads the two fields of the opaque struct sc_keyvalue through a redeclared layout (counts only); walks the AVL "
+                               "nodes to check counts, parent and prev/next pointers",
+                               "the Python reference ADTs in checks/C09.py (ordered set, slot allocator, typed map, sorted set with ranks)"]
     ctx.assumptions += ["hash: equal_fn is an equivalence relation and equal elements have equal hash values (contract of sc_hash_new); an override through **found stores an equal element",
                         "pools/lists: only live items are returned, written or read; documented preconditions of sc_list_insert/remove/pop",
+                        "hash array: the user's equal_fn is an equivalence and equal elements have equal hash values; elements are not modified after insertion",
+                        "recycle array: only live positions are removed, written or read",
+                        "key-value: set/get of an existing key use the entry's type (SC_ASSERTs of sc_keyvalue.c); keys are compared by content",
+                        "AVL: the compare function is a total order comparator (sign antisymmetric, transitive, equal items compare alike); node counts stay below 2^32",
                         "memory safety and termination of the C code are observed (ASan/UBSan), not proved"]
     return "proof"
 
 
-UNPROVED = []
+UNPROVED = ["sc_hash_array_rip is run (memory balance, ripped contents) but has no model operation of its own",
+            "avl_insert_before / avl_insert_after / avl_insert_top called directly by the user, avl_fixup_node, avl_init_node / avl_insert_node with "
+            "caller-owned nodes: not modelled (only avl_insert / avl_delete / avl_delete_node through search)",
+            "AVL balance (height logarithmic in the count) is a performance property and is not claimed; the unsigned 32-bit wrap of node counts is not modelled",
+            "sc_hash_function_string itself is not modelled: the key-value theorem quantifies over every hash function on keys",
+            "sc_list / sc_hash statistics printing, sc_*_memory_used: not modelled",
+            "prev/next of the AVL model is ONE list (forward = backward reversed by construction); the two pointer chains of the C code are compared by the run"]
